@@ -25,6 +25,8 @@ def cases(tier, seed):
         for q in range(0, 4):
             out.append({"name": "apply.order/p=%d/q=%d" % (p, q), "kind": "order", "p": p, "q": q,
                         "sample": 60 if tier == "quick" else 1500})
+    for (p, q) in ((20, 0), (60, 5), (100, 0), (0, 100), (300, 40)) + (((1000, 0), (500, 500)) if tier == "thorough" else ()):
+        out.append({"name": "apply.large/p=%d/q=%d" % (p, q), "kind": "large", "p": p, "q": q})
     cap = 30 if tier == "quick" else None
     for (p, q) in ((1, 0), (2, 0), (1, 1), (0, 2), (2, 2)):
         for pair in ((0, 1), (1, 0), (1, 2), (2, 1)):
@@ -148,7 +150,7 @@ class World(object):
             res.violation("output-pending", "%s: all inputs resolved, output still pending, fn called %d times" % (label, len(self.calls)))
             return False
         if o != ("value", self.expected()):
-            res.violation("wrong-arguments", "%s: fn received %s, expected %s" % (label, self.calls or outcome_repr(o), self.expected()[1:]))
+            res.violation("wrong-arguments", "%s: fn received %s, expected %s" % (label, str(self.calls or outcome_repr(o))[:300], str(self.expected()[1:])[:300]))
         elif len(self.calls) != 1:
             res.violation("fn-called-%d-times" % len(self.calls), label)
         return True
@@ -190,6 +192,43 @@ def run_order(case, res):
                             "output": outcome_repr(outcome(w.out))}, limit=1)
             finally:
                 end(ctx)
+    check_common(res)
+
+
+def run_large(case, res):
+    """Many arguments: the function future first / last / in the middle, arguments in order / reversed / shuffled,
+    one failing input somewhere."""
+    p, q = case["p"], case["q"]
+    n = 1 + p + q
+    rng = random.Random("c16l/%s/%s" % (case["seed"], case["name"]))
+    global KW
+    while len(KW) < q:
+        KW = list(KW) + ["kw%d" % len(KW)]
+    for fn_pos in ("first", "last", "middle"):
+        for arg_order in ("forward", "reversed", "shuffled"):
+            for failing in (None, "some"):
+                begin("rt")
+                ctx = Ctx()
+                try:
+                    w = World(p, q)
+                    rest = list(range(1, n))
+                    if arg_order == "reversed":
+                        rest.reverse()
+                    elif arg_order == "shuffled":
+                        rng.shuffle(rest)
+                    k = {"first": 0, "last": len(rest), "middle": len(rest) // 2}[fn_pos]
+                    order = rest[:k] + [0] + rest[k:]
+                    bad = rng.choice(rest) if failing else None
+                    for i in order:
+                        w.complete(i, fail=(i == bad))
+                    res.execs += 1
+                    label = "f_apply p=%d q=%d function future %s, arguments %s%s" % (p, q, fn_pos, arg_order, ", input %d fails" % bad if bad else "")
+                    if w.judge(res, label, failing=bad):
+                        res.key("large", p, q, fn_pos, arg_order, failing)
+                    res.sample({"positional": p, "keyword": q, "function_future_resolves": fn_pos, "arguments": arg_order,
+                                "failing_input": bad, "output": outcome_repr(outcome(w.out))[:80]}, limit=1)
+                finally:
+                    end(ctx)
     check_common(res)
 
 
@@ -235,6 +274,8 @@ class ConcScenario(object):
 def run_case(case, res):
     k = case["kind"]
     rng = random.Random("c16/%s/%s" % (case["seed"], case["name"]))
+    if k == "large":
+        return run_large(case, res)
     if k == "order":
         run_order(case, res)
     elif k == "nested":
